@@ -10,6 +10,7 @@ import importlib.util
 import os
 
 REGISTRY = {}
+_ALSO = []
 _here = os.path.dirname(os.path.abspath(__file__))
 for _p in sorted(glob.glob(os.path.join(_here, "reg", "*.py"))):
     _spec = importlib.util.spec_from_file_location("reg_" + os.path.basename(_p)[:-3], _p)
@@ -19,3 +20,9 @@ for _p in sorted(glob.glob(os.path.join(_here, "reg", "*.py"))):
         if _k in REGISTRY:
             raise RuntimeError("duplicate check " + _k)
         REGISTRY[_k] = _v
+    _ALSO.append(getattr(_m, "ALSO", {}))
+# growth modules attach additional pipelines (spec + driver + judge) to existing properties
+for _a in _ALSO:
+    for _k, _pipes in _a.items():
+        if _k in REGISTRY:
+            REGISTRY[_k] = dict(REGISTRY[_k], also=list(REGISTRY[_k].get("also", [])) + list(_pipes))
